@@ -155,6 +155,69 @@ def _gambit_globals():
 				yield name, attr, val
 
 
+def _shutdown_dropped_executors(val, snap):
+	"""A library may keep executors (thread / process pools) in module-level containers.  Dropping them without a shutdown would leave their
+	workers running for the rest of the task; shut down those that the reset is about to drop."""
+	from concurrent.futures import Executor
+	items = list(val.values()) if isinstance(val, dict) else list(val)
+	keep = list(snap.values()) if isinstance(snap, dict) else list(snap)
+	for x in items:
+		if isinstance(x, Executor) and not any(x is k for k in keep):
+			end_executor(x)
+
+
+def end_executor(x):
+	"""End an executor the harness does not want to wait for: cancel what is queued, give the workers of a process pool a moment to leave on
+	their own, kill those that do not (a polite shutdown(wait=True) of a pool whose workers are blocked can wait forever).  Idempotent."""
+	import time
+	if getattr(x, '_verif_ended', False):
+		return
+	try:
+		x._verif_ended = True
+	except Exception:
+		pass
+	try:
+		procs = list((getattr(x, '_processes', None) or {}).values())
+		mt = getattr(x, '_executor_manager_thread', None)
+		x.shutdown(wait=False, cancel_futures=True)
+		t0 = time.time()
+		while time.time() - t0 < 3.0 and (any(p.is_alive() for p in procs) or (mt is not None and mt.is_alive())):
+			time.sleep(0.01)
+		for p in procs:
+			try:
+				if p.is_alive():
+					p.kill()
+			except Exception:
+				pass
+	except Exception:
+		pass
+
+
+def end_leaked_executors():
+	"""End every executor reachable from the gambit package's module-level state (directly or inside a module-level container)."""
+	import sys
+	from concurrent.futures import Executor
+	for name, mod in list(sys.modules.items()):
+		if not (name == 'gambit' or name.startswith('gambit.')) or mod is None:
+			continue
+		for attr, val in list(vars(mod).items()):
+			if attr.startswith('__'):
+				continue
+			try:
+				if isinstance(val, Executor):
+					end_executor(val)
+				elif isinstance(val, dict):
+					for x in list(val.values()):
+						if isinstance(x, Executor):
+							end_executor(x)
+				elif isinstance(val, (list, set, tuple)):
+					for x in list(val):
+						if isinstance(x, Executor):
+							end_executor(x)
+			except Exception:
+				pass
+
+
 def reset_gambit_globals():
 	"""Histories replayed 'on fresh objects' inside one interpreter still share gambit's module-level mutable state (caches, registries).
 	The first call snapshots every module-level dict / list / set of the gambit package; later calls restore their contents in place and
@@ -177,6 +240,7 @@ def reset_gambit_globals():
 		snap = _GLOBALS_SNAPSHOT.get((mod, attr))
 		if snap is None:
 			snap = type(val)()          # a container that did not exist at snapshot time starts empty
+		_shutdown_dropped_executors(val, snap)
 		if isinstance(val, dict):
 			if val != snap or list(val) != list(snap):
 				val.clear(); val.update(snap)
